@@ -9,6 +9,7 @@ mod rd;
 mod registry;
 mod rng;
 mod scen_chunk;
+mod scen_de;
 mod scen_fault;
 mod scen_hist;
 mod source;
